@@ -270,6 +270,87 @@ fn placement_part(run: &mut Run, n: usize) {
     }
 }
 
+/// texts of equal length that differ in single bytes, derived from one input (ASCII positions only)
+fn equal_length_variants(src: &str) -> Vec<String> {
+    let bytes = src.as_bytes();
+    let mut positions: Vec<usize> = (0..bytes.len().min(8)).collect();
+    // the start of every line, and a few positions spread over the text
+    positions.extend(src.match_indices('\n').map(|(i, _)| i + 1).filter(|i| *i < bytes.len()).take(12));
+    positions.extend((1..6).map(|k| k * bytes.len() / 6).filter(|i| *i < bytes.len()));
+    positions.sort();
+    positions.dedup();
+    let mut out = vec![src.to_string()];
+    for (n, i) in positions.into_iter().enumerate() {
+        if !bytes[i].is_ascii() {
+            continue;
+        }
+        let repl = [b'x', b'-', b' ', b'@', b'\n', b'>', b'=', b'1'][n % 8];
+        if repl == bytes[i] {
+            continue;
+        }
+        let mut v = bytes.to_vec();
+        v[i] = repl;
+        if let Ok(t) = String::from_utf8(v) {
+            out.push(t);
+        }
+    }
+    out
+}
+
+/// The result depends on the text, not on the memory it is read from: one buffer is cleared and
+/// refilled (same address, same length) with texts that differ in single bytes - the fence of a front
+/// matter, a marker, a line break - and parsed after each refill.
+fn check_buffer_reuse(c: &InputCase, st: &mut Stats) -> Verdict {
+    let src = c.input();
+    let p = parser(c.ext, c.conv);
+    let variants = equal_length_variants(&src);
+    if variants.len() < 2 {
+        return Ok(());
+    }
+    // reference images first, each from its own allocation; nothing else is parsed in between afterwards
+    let Ok(reference) = guard(|| variants.iter().map(|v| full_image(p, v)).collect::<Vec<_>>()) else { return Ok(()) };
+    let mut buf = String::with_capacity(src.len() + 8);
+    let order: Vec<usize> = (0..variants.len()).chain((0..variants.len()).rev()).collect();
+    let mut address = None;
+    for i in order {
+        buf.clear();
+        buf.push_str(&variants[i]);
+        st.class_if(address == Some(buf.as_ptr()), "refill at the same address and length");
+        address = Some(buf.as_ptr());
+        st.eval();
+        let img = guard(|| full_image(p, &buf)).unwrap_or_else(|e| format!("panic:{e}"));
+        vensure!(
+            img == reference[i],
+            "c18.depends-on-placement",
+            "a text parsed from a buffer that held another text of the same length before gives a different result than the same text elsewhere\n {}\n text {:?}\n first text of the buffer {:?}",
+            first_diff(&reference[i], &img), variants[i], src
+        );
+    }
+    st.class_if(src.contains("---"), "input with a fence line");
+    st.nontrivial(&src);
+    Ok(())
+}
+
+fn buffer_reuse_part(run: &mut Run, n: usize) {
+    let mut b = batch(run.seed ^ 0xb0ff, n);
+    for f in ["---\ntitle: x\n---\nMix @a{1%kg}.\n", "---\na: 1\n---\n\n---\nb: 2\n---\n@x{}\n", ">> a: b\n---\nc: d\n---\nstep\n", "\u{feff}\n---\nk: v\n---\n= s\ntext\n"] {
+        b.push(InputCase { pieces: vec![f.to_string()], ext: EXT_ALL, conv: 1 });
+    }
+    let mut st = Stats::default();
+    let mut fail = None;
+    for c in &b {
+        if let Err(v) = check_buffer_reuse(c, &mut st) {
+            fail = Some((v, serde_json::to_value(c).unwrap()));
+            break;
+        }
+    }
+    st.sample(|| b[3].describe());
+    run.add_part("buffer-reuse", "every input of a batch (plus front-matter documents) and up to 25 texts of the same length that differ from it in one byte (first bytes, line starts, spread positions; replaced by x - blank @ LF > = 1) are written one after the other into the same buffer (same address, same length) and parsed from there, forwards and backwards; each image must equal the image of that text parsed from its own allocation beforehand; distinct = distinct input", st, false);
+    if let Some((v, case)) = fail {
+        run.fail("buffer-reuse", v, case);
+    }
+}
+
 /// parse_with_options with a recipe-reference checker, concurrently from 16 threads
 fn options_part(run: &mut Run, n: usize) {
     use cooklang::analysis::CheckResult;
@@ -971,6 +1052,7 @@ pub fn run(tier: Tier) -> i32 {
         "histories" => check_history(&case_from(j)?, &mut Stats::default()),
         "sibling-converters" => check_siblings(&case_from(j)?, &mut Stats::default()),
         "observers" => check_observed(&case_from(j)?, None),
+        "buffer-reuse" => check_buffer_reuse(&case_from(j)?, &mut Stats::default()),
         _ => {
             let c: InputCase = case_from(j)?;
             let a = full_image(parser(c.ext, c.conv), &c.input());
@@ -1028,6 +1110,9 @@ pub fn run(tier: Tier) -> i32 {
         placement_part(&mut run, tier.pick(400, 20000) as usize);
     }
     if !run.failed() {
+        buffer_reuse_part(&mut run, tier.pick(400, 20000) as usize);
+    }
+    if !run.failed() {
         options_part(&mut run, tier.pick(300, 6000) as usize);
     }
     if !run.failed() {
@@ -1080,6 +1165,7 @@ pub fn replay(part: &str, j: &serde_json::Value) -> Verdict {
         "processes" => Err(Violation::new("c18.process-result-differs", "re-run ./check C18 quick with the recorded VERIF_SEED")),
         "sibling-converters" => check_siblings(&case_from(j)?, &mut Stats::default()),
         "observers" => check_observed(&case_from(j)?, None),
+        "buffer-reuse" => check_buffer_reuse(&case_from(j)?, &mut Stats::default()),
         "ffi-histories" => {
             let src = j.get("source").and_then(|s| s.as_str()).unwrap_or("").to_string();
             let f = j.get("factor").and_then(|f| f.as_f64()).unwrap_or(1.0);
